@@ -101,6 +101,20 @@ def boundary_cases():
     return out
 
 
+def many_defers_cases(r):
+    """one scope takes thousands of defers: its stack of deferred calls outgrows the scope arena's node size limit
+    (2049 entries of 16 bytes = a 64 KiB request against a 32 KiB limit), with live neighbours before and after"""
+    out = []
+    for n in (2049, 3000, 4100, 5000):
+        lines = ["sc 0 begin 0", "sc 0 alloc 0 24", "sc 0 begin 100", "sc 0 alloc 1 300"]
+        lines += ["sc 0 defer 1 %d" % (i % 1000) for i in range(n)]
+        lines += ["sc 0 alloc 1 24", "sc 0 defer 0 7", "sc 0 begin 0", "sc 0 defer 2 9", "sc 0 last"]
+        lines += ["sc 0 end 1", "sc 0 last", "sc 0 end 0", "sc 0 last"] if n % 2 else ["sc 0 exit"]
+        lines.append("sc end")
+        out.append(lines)
+    return out
+
+
 def gen_case(r, deep):
     nth = 1 if r.random() < 0.7 else r.randrange(2, 5)
     per = [gen_thread(r, t, deep) for t in range(nth)]
@@ -136,6 +150,7 @@ def run(ctx):
         for _ in range(40 if quick else 800):
             cases.append(gen_case(ctx.rng, deep=True))
         cases += boundary_cases()
+        cases += many_defers_cases(ctx.rng)
     depths = [max((sum(1 for l in c[:i] if " begin " in l) for i in range(len(c))), default=0) for c in cases[:50]]
     ctx.extra_cov["max_begins_in_sampled_cases"] = max(depths) if depths else 0
     ctx.correspond("scope-scripts", exe, cases, oracle=oracle, nontrivial=lambda c: len(c) >= 4, timeout=1200)
